@@ -422,7 +422,7 @@ func replay(t *testing.T, p *Prop, file, outPath string) {
 		rr.Reproduced = true
 	}
 	rr.SameHash = o.LogHash == fv.LogHash
-	rr.Trace = TrimTrace(o.Trace, 400)
+	rr.Trace = TrimTrace(o.Trace, envInt("VERIF_REPLAY_LINES", 400))
 	writeJSON(outPath, rr)
 }
 
